@@ -46,7 +46,8 @@ SpecialForms == {"def", "let", "quote", "quasiquote", "quasiquoteexpand", "defma
 
 \* builtins that need the evaluator or the state
 StateNames == {"trace!", "throw", "atom", "deref", "reset!", "swap!", "apply", "map", "eval",
-               "update", "update-in", "raise!", "boom!", "boom-str!", "depth!", "future-call"}
+               "update", "update-in", "raise!", "boom!", "boom-str!", "depth!", "future-call",
+               "sleep", "future-done?", "future-cancelled?", "future-cancel"}
 BuiltinNames == PureNames \cup StateNames
 
 \* ---------------------------------------------------------------- scopes
@@ -280,7 +281,14 @@ CallBuiltin(name, a, st) ==
          ELSE LET r == ApplySub(a[1], <<>>, st) IN
            IF r.k \in {"div", "unspec"} THEN r
            ELSE IF r.st.eff # st.eff \/ r.st.atoms # st.atoms \/ r.st.envs[1] # st.envs[1] THEN R("unspec", NilV, r.st)
-           ELSE R("val", Mk("fut", 0, r.k, <<r.v>>, NoMap), r.st)
+           \* i = 1: the body slept, i.e. the future may still be running when it is looked at
+           ELSE R("val", Mk("fut", IF r.st.slept THEN 1 ELSE 0, r.k, <<r.v>>, NoMap), [r.st EXCEPT !.slept = st.slept])
+    [] name = "sleep" -> IF n # 1 \/ a[1].t # "int" THEN R("err", ErrV("builtin"), st) ELSE R("val", NilV, [st EXCEPT !.slept = TRUE])
+    \* status of a future whose body has certainly finished (it never slept); otherwise it depends on timing
+    [] name \in {"future-done?", "future-cancelled?", "future-cancel"} ->
+         IF n # 1 \/ a[1].t # "fut" THEN R("err", ErrV("builtin"), st)
+         ELSE IF a[1].i = 1 THEN R("unspec", NilV, st)
+         ELSE R("val", BoolV(name = "future-done?"), st)
     [] name = "reset!" -> IF n # 2 THEN R("err", ErrV("builtin"), st)
                           ELSE IF a[1].t # "atom" THEN R("err", ErrV("builtin"), st)
                           ELSE R("val", a[2], [st EXCEPT !.atoms[a[1].i] = a[2]])
@@ -394,7 +402,7 @@ Ev(a, e, st0) ==
 Fuel0 == 3000
 BaseState == [envs |-> <<[o |-> 0, b |-> [nm \in BuiltinNames |-> BfnV(nm)]]>>,
               atoms |-> <<>>, eff |-> <<>>, fuel |-> Fuel0, depth |-> 0, depths |-> <<>>,
-              track |-> FALSE, visits |-> {}]
+              track |-> FALSE, visits |-> {}, slept |-> FALSE]
 
 \* transcribed from lib/core/header-basic.lisp and lib/coreextented/header-coreextended.lisp
 PreludeText ==
@@ -414,6 +422,9 @@ PreludeText ==
   "(def every? (fn (pred xs) (cond (empty? xs) true (pred (first xs)) (every? pred (rest xs)) true false)))" \o
   "(def some (fn (pred xs) (if (empty? xs) nil (or (pred (first xs)) (some pred (rest xs))))))" \o
   "(defmacro and (fn (& xs) (cond (empty? xs) true (= 1 (count xs)) (first xs) true (let (condvar (gensym)) `(let (~condvar ~(first xs)) (if ~condvar (and ~@(rest xs)) ~condvar))))))" \o
+  "(def *host-language* \"go\") (def *ARGV* ())" \o
+  "(def reduce-kv (fn [f init xs] (if (empty? xs) init (reduce-kv f (f init (nth xs 0) (nth xs 1)) (rest (rest xs))))))" \o
+  "(def foldr (let [rec (fn [f xs acc index] (if (< index 0) acc (rec f xs (f (nth xs index) acc) (- index 1))))] (fn [f init xs] (rec f xs init (- (count xs) 1)))))" \o
   "(defmacro future (fn [& body] `(future-call (fn [] ~@body))))" \o
   "(def memoize (fn [f] (let [mem (atom {})] (fn [& args] (let [key (str args)] (if (contains? @mem key) (get @mem key) (let [ret (apply f args)] (do (swap! mem assoc key ret) ret))))))))"
 
